@@ -44,6 +44,7 @@ func (f *Frame) call(st *State, r *Term, site ssa.Instruction, cc *ssa.CallCommo
 				}
 			}
 			f.fieldFnCallPre(st, r, cc, args, pos)
+			f.atCallChecksDynamic(st, r, cc, args, pos)
 			if ftKey, nt := functypeKey(f.subst(cc.Value.Type())); nt != nil {
 				if ct := f.ctx.eng.contracts.Funcs[ftKey]; ct != nil {
 					return f.traceDynamic(r, v, args, f.functypeCall(st, r, ct, nt, v, args, pos))
@@ -174,11 +175,41 @@ func (f *Frame) setRegister(st *State, r *Term, name string, v *Term) {
 // atCallChecks: `at-call "key" label: expr` clauses of the function under verification, checked in the
 // state in which the callee is entered.
 func (f *Frame) atCallChecks(st *State, r *Term, target *ssa.Function, bindings []Val, args []Val, pos token.Pos) {
+	f.atCallChecksFor(st, r, funcKey(target), target.Signature, args, pos)
+}
+
+// atCallChecksDynamic: the same for a call through a function value loaded from a struct field; the key is
+// the field's, written like the key of a fieldfn contract: "pkg.fieldfn:Type.Field".
+func (f *Frame) atCallChecksDynamic(st *State, r *Term, cc *ssa.CallCommon, args []Val, pos token.Pos) {
+	ld, ok := cc.Value.(*ssa.UnOp)
+	if !ok {
+		return
+	}
+	fa, ok := ld.X.(*ssa.FieldAddr)
+	if !ok {
+		return
+	}
+	pt, ok := fa.X.Type().Underlying().(*types.Pointer)
+	if !ok {
+		return
+	}
+	nt, ok := types.Unalias(pt.Elem()).(*types.Named)
+	if !ok || nt.Obj().Pkg() == nil {
+		return
+	}
+	st2, ok := nt.Underlying().(*types.Struct)
+	if !ok {
+		return
+	}
+	key := pkgID(nt.Obj().Pkg()) + ".fieldfn:" + nt.Obj().Name() + "." + st2.Field(fa.Field).Name()
+	f.atCallChecksFor(st, r, key, cc.Signature(), args, pos)
+}
+
+func (f *Frame) atCallChecksFor(st *State, r *Term, key string, sig *types.Signature, args []Val, pos token.Pos) {
 	top := f.top()
 	if top.contract == nil || len(top.contract.AtCalls) == 0 {
 		return
 	}
-	key := funcKey(target)
 	for i, ac := range top.contract.AtCalls {
 		if ac.Key != key {
 			continue
@@ -187,7 +218,6 @@ func (f *Frame) atCallChecks(st *State, r *Term, target *ssa.Function, bindings 
 		se.positive = false
 		se.wit, se.witParam = ac.Clause.Wit, ac.Clause.WitParam
 		se.presite = "pre"
-		sig := target.Signature
 		n := 0
 		if recv := sig.Recv(); recv != nil && len(args) > 0 {
 			se.vars["$arg0"] = SVal{args[0], f.subst(recv.Type())}
